@@ -216,7 +216,12 @@ def e2e_cases(ctx, rng, count):
         if start == "explicit":
             age = rng.choice([rng.randrange(70, 4000), rng.randrange(4000, 10 ** 7)])
             st = (now - datetime.timedelta(seconds=age)).replace(microsecond=0)
-            opts.append("start=" + st.strftime("%Y-%m-%dT%H:%M:%SZ"))
+            if rng.random() < .35:   # explicit start with a non-UTC offset ('+' URL-encoded)
+                off = rng.choice([120, -330, 345, -60, 840, -720])
+                loc = st + datetime.timedelta(minutes=off)
+                opts.append("start=" + loc.strftime("%Y-%m-%dT%H:%M:%S") + f"{'%2B' if off >= 0 else '-'}{abs(off) // 60:02d}:{abs(off) % 60:02d}")
+            else:
+                opts.append("start=" + st.strftime("%Y-%m-%dT%H:%M:%SZ"))
         else:
             opts.append("start=" + start)
         opts.append("depth=" + str(rng.choice([20, 40, 60, 120])))
